@@ -567,7 +567,13 @@ def run(ctx):
             continue
         cases.append(c); lines.append(l); impls.append(i); states.append(r["state0"])
     ujobs = []
-    fmts = UPGRADE_FORMATS if ctx.thorough() else [f for i, f in enumerate(UPGRADE_FORMATS) if (i + ctx.seed) % 4 == 0]
+    if ctx.thorough():
+        fmts = UPGRADE_FORMATS
+    else:
+        # every run covers every converter class (branch 5 -> 6 -> 7 -> 8, tree 3 -> 4 -> 5 -> 6, knit / pack -> 2a):
+        # knit (branch 5, tree 3), dirstate-tags (branch 6, tree 4), 1.14 (branch 7, tree 5) + two rotating formats
+        rest = [f for f in UPGRADE_FORMATS if f not in ("knit", "dirstate-tags", "1.14")]
+        fmts = ["knit", "dirstate-tags", "1.14"] + [rest[(ctx.seed * 2 + j) % len(rest)] for j in range(2)]
     idx = 1000
     for f in fmts:
         for k in range(ctx.pick(1, 3)):
